@@ -192,6 +192,32 @@ func capturedWrites(info *types.Info, pkgScope *types.Scope, fl *ast.FuncLit) []
 				}
 			}
 		case *ast.CallExpr:
+			// v.Set(...), v.Field(i).SetInt(...), v.SetMapIndex(...) with v a reflect.Value captured
+			// from the generator: the value is shared by every execution of the statement
+			if se, ok := unparen(x.Fun).(*ast.SelectorExpr); ok && strings.HasPrefix(se.Sel.Name, "Set") {
+				if f, ok := info.Uses[se.Sel].(*types.Func); ok && f.Pkg() != nil && f.Pkg().Path() == "reflect" {
+					recv := unparen(se.X)
+					for {
+						c, ok := recv.(*ast.CallExpr)
+						if !ok {
+							break
+						}
+						cs, ok := unparen(c.Fun).(*ast.SelectorExpr)
+						if !ok {
+							break
+						}
+						if m, ok := info.Uses[cs.Sel].(*types.Func); !ok || m.Pkg() == nil || m.Pkg().Path() != "reflect" {
+							break
+						}
+						recv = unparen(cs.X)
+					}
+					if id, ok := recv.(*ast.Ident); ok && types.TypeString(info.TypeOf(id), nil) == "reflect.Value" {
+						if cv := captured(id); cv != nil {
+							out = append(out, capWrite{Pos: x.Pos(), Var: cv, What: "reflect " + se.Sel.Name + " on the captured value " + types.ExprString(se.X)})
+						}
+					}
+				}
+			}
 			if id, ok := unparen(x.Fun).(*ast.Ident); ok {
 				if b, ok := info.Uses[id].(*types.Builtin); ok && len(x.Args) > 0 {
 					switch b.Name() {
